@@ -30,7 +30,7 @@
 (* so a history is a chain a[e1][e2]...; every state after at least one     *)
 (* step is a published case: expected observation <err, shape, strides,     *)
 (* element ids>, hazard class and the observation predicted for the code    *)
-(* as it is.  A chain ends at an error, a hazard or a 0-dim result.         *)
+(* as it is.  A chain ends at an error, a hazard, a 0-dim or empty result.  *)
 EXTENDS Integers, Sequences, FiniteSets, TLC, Json
 
 CONSTANTS Inits,      \* set of <<mode, lens, lays>>; mode: "full1" 1-D, whole quantifier domain | "chain1" 1-D chains | "nd" 1..3-D menus
@@ -322,7 +322,10 @@ Step__(e, r, o) == Step___(e, r, o, ImplObs(view, e, "typed", FALSE, FALSE))
 Step_(e, r) == Step__(e, r, Obs(r))
 Step(e) == Step_(e, ApplyRef(view, e))
 
-Open == Len(hist) < MaxDepth /\ exp.err = "" /\ exp.hz = "none" /\ view.dims # <<>>
+\* a chain ends at an error, a hazard, a 0-dim result and at an empty result: the position of an empty view is
+\* not observable (the code as it is may place it one stride away from the reference), so nothing computed
+\* from it could be predicted; empty operands are covered by the input buffers of extent 0
+Open == Len(hist) < MaxDepth /\ exp.err = "" /\ exp.hz = "none" /\ view.dims # <<>> /\ (hist = <<>> \/ exp.el # <<>>)
 
 Slice1 == /\ Open /\ Mode \in {"full1", "chain1"} /\ Len(view.dims) = 1
           /\ \E e \in SliceMenu(view.dims[1].n, Len(hist), lane) : Step(<<e>>)
